@@ -8,7 +8,7 @@ MODS = ["contracts.c10_columns_used"]
 def run(tier, seed):
     from contracts.c10_columns_used import KEYS
     rep = Report(property_id="C10", level="proof")
-    rep.rule = ("proof part: for each of the 13 node classes, need_i(N,U) ⊆ columns_used_from_sources(U)[i] ⊆ columns(source_i) and one entry per source, "
+    rep.rule = ("proof part: for each of the 13 node classes, need_i(N,U) ⊆ columns_used_from_sources(U)[i] ⊆ columns(source_i) and one entry per source; the recursion step columns_used_implementation_ (records only grow, every source re-asked with the node's full record), "
                 "one VC per path (need = spec function written from the operator documentation); bounded ride-along: perturbing every unreported input "
                 "column and narrowing the table descriptions on enumerated pipelines (Pandas and SQLite); non-trivial = at least one perturbation evaluated")
     rep.bounded_label = "bounded ride-along (not counted as proved): operator chains of depth <= %s over tables <= %d rows" % (("2", 3) if tier == "quick" else ("3 (sampled)", 4))
@@ -16,9 +16,12 @@ def run(tier, seed):
         "spec function need_i is the executors' true dependency: tied to Pandas/SQLite only by the bounded perturbation run",
         "Term.get_column_names adds exactly cols(e) (assumed contract; cols is the same spec function the frame axiom of C06 uses)",
         "constructor facts used as preconditions (window columns exist and are not assigned, mapping injective and collision-free, filter parsed against the source): established by the constructors, which are under contract in C26",
-        "the DAG-wide fixpoint columns_used_implementation_/columns_used (recursion over sources, shared tables) is covered by the bounded run only",
+        "DAG level: one call of columns_used_implementation_ is proved against the contract of the calls it makes (records only grow; this node's record contains the request; every source is "
+        "re-asked with what this node needs given its FULL record); the induction over the DAG that lifts this and the per-node obligations to columns_used() is a paper argument, termination is not proved; "
+        "the top-level columns_used() wrapper (initial records for the tables, copies returned) is covered by the bounded run only",
     ]
     run_proofs(rep, MODS, KEYS)
+    run_proofs(rep, ["contracts.c10_dag"], ["ViewRepresentation.columns_used_implementation_"])
     run_bounded(rep, "cbc.c10", tier, seed, timeout_s=400 if tier == "quick" else 1500)
     attach_bounded_witness(rep)
     return rep
